@@ -6,7 +6,7 @@ even when the program would not otherwise read it again; overloads by int/float/
 distinct constants."""
 import itertools
 
-from ..lang import (INT, FLOAT, IntLit, FloatLit, Var, Index, Swizzle, Bin, Assign, Affix, Call, Construct, Decl, ExprStmt,
+from ..lang import (arr, INT, FLOAT, IntLit, FloatLit, Var, Index, Swizzle, Bin, Assign, Affix, Call, Construct, Decl, ExprStmt,
                     Block, If, For, While, Return, Func, Module, vec, mat, is_vec, is_mat, is_scalar, mk_bin)
 
 F2, F3, I2, I3, M3 = vec(FLOAT, 2), vec(FLOAT, 3), vec(INT, 2), vec(INT, 3), mat(FLOAT, 3, 3)
@@ -154,6 +154,17 @@ class CallGen:
             body.append(Decl(t, n, value_of(rng, t, env_all) if rng.random() < 0.8 else None))
             env_all[n] = t
         own = [n for n in env_all if n != "d"]
+        # a nested aggregate local (rows are objects of their own): written before the calls, read after each call.
+        # A callee or a recursive activation of this very function declares its own `grid`.
+        grid = None
+        if rng.random() < 0.5:
+            gt = arr(INT, [2, 2])
+            grid = V("grid", gt)
+            body.append(Decl(gt, "grid"))
+            seedv = [n for n in env_all if env_all[n] == INT]
+            val = V(seedv[0], INT) if seedv else I(index + 3)
+            body.append(ExprStmt(Assign("=", Index(Index(grid, I(index % 2), arr(INT, [2])), I(1), INT), B("+", val, I(index + 1)))))
+            body.append(ExprStmt(Assign("=", Index(Index(grid, I(1 - index % 2), arr(INT, [2])), I(0), INT), I(40 + index))))
         callees = list(self.funcs[:index])
         sites = rng.randint(1, 3)
         this_fn_placeholder = Func(name, params, ret, None, exported)
@@ -172,14 +183,40 @@ class CallGen:
                     args.append(I(rng.randint(0, 3)))
                 else:
                     at = pt
-                    if pt == FLOAT and rng.random() < 0.3:
+                    r = rng.random()
+                    env_nod = {k: v for k, v in env_all.items() if k != "d"}
+                    if pt == FLOAT and r < 0.3:
                         at = INT
-                    args.append(value_of(rng, at, {k: v for k, v in env_all.items() if k != "d"}))
+                    if pt == INT and r < 0.15:
+                        # narrowing at the call boundary (non-negative literal: floor = truncation)
+                        args.append(F(rng.choice([0.5, 2.5, 3.75, 7.0, 1.25])))
+                        continue
+                    if is_scalar(pt) and r > 0.8:
+                        # a call nested in an argument (its own arguments may need conversions too)
+                        inner = [c for c in callees if c is not callee and is_scalar(c.ret) and not any(n == "d" for _, n in c.params)
+                                 and all(is_scalar(t) for t, _ in c.params)]
+                        if inner:
+                            c2 = rng.choice(inner)
+                            a2 = []
+                            for t2, _ in c2.params:
+                                if t2 == INT and rng.random() < 0.4:
+                                    a2.append(F(rng.choice([0.5, 2.5, 3.75, 6.0])))
+                                else:
+                                    a2.append(value_of(rng, t2, env_nod))
+                            args.append(Call(c2.name, a2, c2.ret, c2))
+                            continue
+                    args.append(value_of(rng, at, env_nod))
             call = Call(callee.name, args, callee.ret, callee)
             rn = "r%d" % s
             use = [Decl(callee.ret, rn, call),
                    ExprStmt(Assign("=", V("acc", FLOAT), B("+", B("*", V("acc", FLOAT), F(0.5)), checksum(V(rn, callee.ret)))))]
             after = [ExprStmt(Assign("=", V("acc", FLOAT), B("+", V("acc", FLOAT), checksum(V(n, env_all[n]))))) for n in own]
+            if grid is not None:
+                g2 = arr(INT, [2])
+                gsum = B("+", B("+", Index(Index(grid, I(0), g2), I(0), INT), B("*", Index(Index(grid, I(0), g2), I(1), INT), I(3))),
+                         B("+", B("*", Index(Index(grid, I(1), g2), I(0), INT), I(5)), B("*", Index(Index(grid, I(1), g2), I(1), INT), I(7))))
+                after.append(ExprStmt(Assign("=", V("acc", FLOAT), B("+", V("acc", FLOAT), B("*", gsum, F(1.0))))))
+                after.append(ExprStmt(Assign("=", Index(Index(grid, I(1), g2), I(1), INT), B("+", Index(Index(grid, I(1), g2), I(1), INT), I(1)))))
             stmts = use + after
             if callee is this_fn_placeholder:
                 body.append(If(B(">", V("d", INT), I(0)), Block(stmts)))
